@@ -47,7 +47,7 @@ PROPS = {
         'title': 'Every well-formed definition compiles in every supported configuration',
         'level_text': "PARTIAL. Proof (C14.dynamic_iff, item_names, toSnake_noUpper, pascalGo_noUnderscore, toPascal_head, accessor_names; C12.method_name_declared): the dynamic API is emitted iff dynamic: true or the feature is set; generated names follow the convention (snake_case methods/accessors/extractors for any state name, PascalCase variants, Dynamic<Name>, <Name>Event). That rustc accepts the expansion of every well-formed definition is not a Lean statement: it is established by rustc on the T4 pos corpus (option product, four build configurations) and on every machine T3 compiles, rebuilt from the current tree on every run. The macro-level half is a theorem (C13Complete.macro_accepts: every definition satisfying R1-R10 is expanded, never refused), and where the naming side conditions fail the modelled rustc rules reject the expansion (SideConditions).",
         'level_note': 'Known limits of the real code at the edges of well-formedness are recorded in known_findings.json (derived-name collisions, dynamic with zero events, concrete context without Default under dynamic). Ties: T2 all regions decl/sig, T4 pos, T3 builds.',
-        'modules': ['SMV.Props.C14', 'SMV.Props.SideConditions', 'SMV.Props.C13Complete'],
+        'modules': ['SMV.Props.C14', 'SMV.Props.SideConditions', 'SMV.Props.C13Complete', 'SMV.Props.C14Names'],
         'regions': ['FE', 'MK', 'ST', 'IH', 'CT', 'SIG', 'SA', 'XA', 'SUB', 'EV', 'AS', 'DN', 'DF', 'ID', 'EX', 'DA', 'HD', 'CS'],
         't4': ['pos', 'known', 'advpos'],
         'design_ref': 'DESIGN.md §7 C14',
